@@ -143,6 +143,24 @@ def run():
         rid = f"d{len(reqs)}"
         reqs.append({"id": rid, "src": consumers[ci].format(d=d), "fuel": 100000, "depth": 150, "deadline_ms": 4000})
         meta[rid] = ("derived", builders[bj], consumers[ci], 0)
+    # user objects that implement the protocols natives and built-ins call back into (<=>, _incBy, _iter, S, B, ==, call, at, digest, new, _missing),
+    # written in Pangaea (so the callee is a Pangaea function with parameters, keywords and a body), rooted at Obj / Comparable / Iterable
+    protos = ["{{{body}}}", "Comparable.bear({{{body}}})", "Iterable.bear({{{body}}})", "Int.bear({{{body}}})"]
+    body_ = ("new: m{|n| .bear({n: n})}, '<=>: m{|o, k: 0| .n <=> o.n}, _incBy: m{|k, j: 1| .new(.n + k)}, S: m{|base: 10| \"v#{.n}\"}, B: m{.n > 0}, '==: m{|o| .n == o.n}, "
+             "_iter: m{[.n, .n + 1]._iter}, call: m{|x, k: 0| [.n, x]}, at: m{|i| .n}, digest: m{|pairs| pairs.len}, n: 0, '+: m{|o| .new(.n + o.n)}, _missing: m{|name| name}")
+    cons = ["(V.new(1):V.new(4))@S", "(V.new(1):V.new(4)).A.len", "(V.new(1):V.new(9):V.new(3))@{|e| e.n}", "(V.new(4):V.new(1):V.new(-1)).A", "[V.new(2), V.new(1)].max.n", "[V.new(2), V.new(1)].min.n",
+            "V.new(1) < V.new(2)", "V.new(1).between?(V.new(0), V.new(3))", "V.new(5).clip(V.new(0), V.new(3)).n", "V.new(1)@{|e| e}", "V.new(1).A", "V.new(1)$(0)+", "\"#{V.new(3)}\"", "V.new(3).S",
+            "V.new(3).p", "[V.new(3)].S", "(1 if V.new(1) else 2)", "(V.new(0) || 5)", "!V.new(1)", "V.new(1) == V.new(1)", "[V.new(1)] == [V.new(1)]", "%{V.new(1): 1}[V.new(1)]", "{a: V.new(1)} == {a: V.new(1)}",
+            "[V.new(1), V.new(1)].uniq.len" if False else "[V.new(1), V.new(2)].has?(V.new(2))", "V.new(1)(5)", "[1, 2]@^v1", "v1.call(3, k: 1)", "V.new(7)[2]", "V.new(7)[1:2]", "[1, 2]@(V.new(0)){|e| [e, e]}",
+            "V.new(1) + V.new(2)", "[V.new(1), V.new(2)].sum.n", "V.new(1).try.nosuch.A", "V.new(1).nosuch(1, 2)", "V.new(1) === V.new(1)", "1.case(%{V.new(1): 'a})", "[V.new(3), V.new(1), V.new(2)].sort",
+            "(V.new(1):V.new(3)).has?(V.new(2))", "(V.new(1):V.new(3))[0]", "(V.new(1):V.new(3)) == (V.new(1):V.new(3))", "V.new(1).bear.n", "V.new(2) ** 2", "-V.new(2)", "V.new(2).keys", "JSON.dec(V.new(2).S)",
+            "[V.new(1)].tally", "[V.new(1), V.new(2)].keyBy {|e| e}", "[V.new(1), V.new(2)].index(V.new(2))", "V.new(1).zip([1, 2]).A", "V.new(1).withI.A", "V.new(1).chain(V.new(5)).A"]
+    for pk, pt in enumerate(protos):
+        pre = "V := " + pt.format(body=body_) + "; v1 := V.new(1)\n"
+        for c_ in cons:
+            rid = f"P{len(reqs)}"
+            reqs.append({"id": rid, "src": pre + c_, "fuel": 60000, "depth": 150, "deadline_ms": 4000})
+            meta[rid] = ("protocol", str(pk), c_, 0)
     # wide and deep programs: counts around every power of two a table, cache or buffer might be sized by
     for n in ([63, 64, 65, 66, 127, 128, 129, 255, 256, 257, 1023, 1024, 1025, 4097] if thorough else [64, 65, 129, 257, 1025]):
         args = ", ".join(str(k) for k in range(1, n + 1))
@@ -331,7 +349,7 @@ def run():
                       f"tuples ({len(argsets)}: none, one from a {len(SUB12) if not thorough else len(POOL)}-value pool, pairs from a sub-pool, keyword / * / ** forms); token space: all pairs of {len(reps)} token "
                       "representatives (from the real lexer over the corpus + malformed tokens) + seeded triples; byte-level mutations of corpus files; index/slice space "
                       "on 15 receivers x 26 indices x 4 forms; derived structures (20 key kinds x 17 builders x 33 consumers: conversions such as Arr#O / Arr#M over descendants of str, then ** / * expansion, "
-                      "iteration, printing, JSON); the value of bodies ending in each statement kind (defer / return / yield / raise, guarded, nested) in 20 uses; module functions (import / invite! / http constructors and client) x 20 argument kinds; wide and deep programs (22 shapes x counts 64..1025, thorough 63..4097); iterator literals (0..3 parameters x 0..4 arguments to new x 0..4 to recur x keywords x 4 ways to advance); calls that ended in an error made three more times in one process; stdin shapes through <>; interactive sessions: sessions of <= 4 (thorough 5) lines over 12 line kinds that PanRepl allows (quick: 4000 seeded of 22621; thorough: 60000 seeded of all), typed into "
+                      "iteration, printing, JSON); the value of bodies ending in each statement kind (defer / return / yield / raise, guarded, nested) in 20 uses; module functions (import / invite! / http constructors and client) x 20 argument kinds; wide and deep programs (22 shapes x counts 64..1025, thorough 63..4097); user objects implementing the protocols natives call back into (4 roots x 52 consumers); iterator literals (0..3 parameters x 0..4 arguments to new x 0..4 to recur x keywords x 4 ways to advance); calls that ended in an error made three more times in one process; stdin shapes through <>; interactive sessions: sessions of <= 4 (thorough 5) lines over 12 line kinds that PanRepl allows (quick: 4000 seeded of 22621; thorough: 60000 seeded of all), typed into "
                       "runscript.StartREPL and compared with the transcript PanRepl prescribes (chunks evaluated in one scope), + seeded sessions over mode words in every capitalisation; a seeded sample again through runscript.RunSource; non-trivial = runs ending in a "
                       "Pangaea error (a built-in was reached with arguments it has to reject)")
     ck.assumptions = ["programs cut off by the evaluation fuel / depth / deadline / heap watchdog are discarded (the property's proviso)",
